@@ -66,7 +66,7 @@ func (r *RootCertificates) Store(ctx context.Context, storage nodeenrollment.Sto
 	if opts.WithStorageWrapper != nil {
 		rootsToStore = proto.Clone(r).(*RootCertificates)
 
-		keyId, err := opts.WithStorageWrapper.KeyId(ctx)
+		keyId, err := storageWrapperKeyId(ctx, opts.WithStorageWrapper)
 		if err != nil {
 			return fmt.Errorf("(%s) error reading wrapper key id: %w", op, err)
 		}
